@@ -13,6 +13,7 @@ import (
 	"testing"
 	"time"
 
+	"github.com/mithrandie/csvq/lib/value"
 	"pgregory.net/rapid"
 
 	"verif/internal/fw"
@@ -77,9 +78,12 @@ type failT struct {
 	Part   bool     `json:"part,omitempty"`   // not bound to a row, but fails after other items of the statement were evaluated
 	Ns     []int    `json:"ns,omitempty"`     // cancellation: numbers of context polls that pass before the context is cancelled
 	Errno  int      `json:"errno,omitempty"`  // error number the engineered failure has in lib/query/error_code.go
+	Pre    []stmtT  `json:"pre,omitempty"`    // statements run after the prefix: variables / cursors holding values read from the tables
+	Shared int      `json:"shared,omitempty"` // number of values of the statement that are read from table cells (subquery, variable, cursor)
 }
 
 type caseT struct {
+	Poison bool    `json:"poison,omitempty"` // run with value.VerifPoison: an object handed to value.Discard is overwritten at once
 	Tables []tblT  `json:"tables"`
 	CPU    int     `json:"cpu"`
 	Cold   bool    `json:"cold"` // file tables no statement has touched are not read before the failing statement
@@ -332,6 +336,57 @@ var failKinds = []struct {
 	{"cancel", 22},
 }
 
+// sharer hands out expressions whose value is the very object a table cell holds: scalar
+// subqueries over either table, variables assigned from a cell (VAR :=, SELECT INTO) and
+// variables fetched from a cursor. A failing statement that had already evaluated such
+// values must not release, recycle or change them.
+type sharer struct {
+	t    *rapid.T
+	tbls []*gTbl
+	pre  []stmtT
+	refs map[string]bool
+	n    int
+}
+
+func (sh *sharer) expr() string {
+	sh.n++
+	g := sh.tbls[fw.Range(sh.t, "shared_table", 0, len(sh.tbls)-1)]
+	col := fw.PickU(sh.t, "shared_col", []string{"v", "v", "w"})
+	id := g.ids[fw.Range(sh.t, "shared_row", 0, len(g.ids)-1)]
+	sh.refs[g.Name] = true
+	sub := fmt.Sprintf("(SELECT %s FROM %s WHERE id = %d)", col, g.Name, id)
+	refs := []string{g.Name}
+	switch fw.Weighted(sh.t, "shared_how", []int{40, 20, 15, 25}) {
+	case 1:
+		name := fmt.Sprintf("@s%d", sh.n)
+		sh.pre = append(sh.pre, stmtT{Kind: "var", SQL: fmt.Sprintf("VAR %s := %s;", name, sub), Refs: refs})
+		return name
+	case 2:
+		name := fmt.Sprintf("@s%d", sh.n)
+		sh.pre = append(sh.pre, stmtT{Kind: "select_into", SQL: fmt.Sprintf("VAR %s; SELECT %s INTO %s FROM %s WHERE id = %d;", name, col, name, g.Name, id), Refs: refs})
+		return name
+	case 3:
+		cur := fmt.Sprintf("c%d", sh.n)
+		a, b := fmt.Sprintf("@c%da", sh.n), fmt.Sprintf("@c%db", sh.n)
+		sh.pre = append(sh.pre, stmtT{Kind: "cursor", SQL: fmt.Sprintf("DECLARE %s CURSOR FOR SELECT v, w FROM %s WHERE id >= %d; OPEN %s; VAR %s, %s; FETCH %s INTO %s, %s;", cur, g.Name, id, cur, a, b, cur, a, b), Refs: refs})
+		if col == "w" {
+			return b
+		}
+		return a
+	}
+	return sub
+}
+
+func (sh *sharer) refList() []string {
+	var out []string
+	for _, g := range sh.tbls {
+		if sh.refs[g.Name] {
+			out = append(out, g.Name)
+		}
+	}
+	return out
+}
+
 // rowBound: the kinds whose failure is bound to a row K (or to a poll count): the ones a case can enumerate.
 var rowBound = map[string]bool{"update_set_div0": true, "update_where_div0": true, "update_multi_ambiguous": true, "update_multi_div0": true,
 	"delete_div0": true, "delete_multi_div0": true, "insert_select_div0": true, "replace_select_div0": true, "alter_add_div0": true,
@@ -378,11 +433,14 @@ func genFail(t *rapid.T, T, B *gTbl, enum bool) failT {
 	}
 
 	f := failT{Target: T.Name, Refs: one}
+	sh := &sharer{t: t, tbls: []*gTbl{T, B}, refs: map[string]bool{T.Name: true}}
 	switch kind {
 	case "update_set_div0":
 		k := pickRow(t, T.ids)
 		f.SK, f.FK, f.Drive, f.K, f.Errno = "update", "div0", T.Name, k, errDiv0
-		switch fw.Range(t, "shape", 0, 2) {
+		switch fw.Range(t, "shape", 0, 3) {
+		case 3:
+			f.SQL = fmt.Sprintf("UPDATE %s SET v = %s, w = 1 / (id - {K});", T.Name, sh.expr())
 		case 0:
 			f.SQL = fmt.Sprintf("UPDATE %s SET v = 'F', w = 1 / (id - {K});", T.Name)
 		case 1:
@@ -443,6 +501,7 @@ func genFail(t *rapid.T, T, B *gTbl, enum bool) failT {
 			j = fw.Range(t, "values_j", 0, m-1)
 		}
 		how := fw.Range(t, "values_how", 0, 3)
+		shared := fw.Pct(t, "values_shared", 60)
 		f.J, f.M = j, m
 		f.FK, f.Errno = "row_length", errRowLength
 		if how >= 2 {
@@ -459,18 +518,31 @@ func genFail(t *rapid.T, T, B *gTbl, enum bool) failT {
 				// a two-column list; the failing row value fails inside a scalar subquery
 				if i == j {
 					rows = append(rows, fmt.Sprintf("(%d, (SELECT 1 / (id - id) FROM %s LIMIT 1))", id, T.Name))
+				} else if shared {
+					rows = append(rows, fmt.Sprintf("(%d, %s)", id, sh.expr()))
 				} else {
 					rows = append(rows, fmt.Sprintf("(%d, 'F')", id))
 				}
 				continue
 			}
 			vals := T.rowVals(id, "F")
+			if shared {
+				for ci, cn := range T.cols {
+					if cn != "id" && fw.Pct(t, "shared_cell", 55) {
+						vals[ci] = sh.expr()
+					}
+				}
+			}
 			if i == j {
 				switch how {
 				case 0:
 					vals = vals[:len(vals)-1]
 				case 1:
-					vals = append(vals, "1")
+					if shared {
+						vals = append(vals, sh.expr())
+					} else {
+						vals = append(vals, "1")
+					}
 				default:
 					vals[len(vals)-1] = "1 / 0"
 				}
@@ -626,6 +698,12 @@ func genFail(t *rapid.T, T, B *gTbl, enum bool) failT {
 		}
 		sort.Ints(f.Ns)
 	}
+	if sh.n > 0 {
+		f.Pre, f.Shared = sh.pre, sh.n
+		if len(f.Refs) < 2 {
+			f.Refs = sh.refList()
+		}
+	}
 	return f
 }
 
@@ -648,6 +726,7 @@ func genCaseOf(t *rapid.T, enum bool) caseT {
 		c.CPU = fw.PickU(t, "cpu", []int{1, 1, 2, 4})
 	}
 	c.Cold = fw.Pct(t, "cold", 50)
+	c.Poison = fw.Pct(t, "poison", 35)
 	c.Tables = []tblT{T.tblT, B.tblT}
 	np := fw.Weighted(t, "prefix_len", []int{30, 20, 20, 16, 14})
 	for i := 0; i < np; i++ {
@@ -764,7 +843,7 @@ func showRow(r []string) string {
 		if c == nullCell {
 			ss = append(ss, "NULL")
 		} else {
-			ss = append(ss, "'"+c+"'")
+			ss = append(ss, fmt.Sprintf("%q", c))
 		}
 	}
 	return "(" + strings.Join(ss, ",") + ")"
@@ -1026,6 +1105,13 @@ func checkOnce(c caseT, limit time.Duration) (fw.Outcome, *fw.Violation) {
 	if err := run.WriteFiles(dir, files); err != nil {
 		return o, fw.Harness("%v", err)
 	}
+	if c.Poison {
+		// verif build: value.Discard overwrites the object with a sentinel instead of pooling it, so
+		// a discarded object a table still points to shows at once (cases run one after the other)
+		defer func(old bool) { value.VerifPoison = old }(value.VerifPoison)
+		value.VerifPoison = true
+		class("poison_mode")
+	}
 	pc := newPollCtx()
 	s, err := run.NewSess(run.Opt{Dir: dir, CPU: c.CPU, Ctx: pc})
 	if err != nil {
@@ -1071,6 +1157,20 @@ func checkOnce(c caseT, limit time.Duration) (fw.Outcome, *fw.Violation) {
 			touched[n] = true
 		}
 		class("prefix:" + p.Kind)
+	}
+
+	// variables and cursors that hold values read from the tables
+	for _, p := range c.F.Pre {
+		if r := e.exec(p.SQL); r.Err != nil {
+			return o, fw.Harness("statement preparing a variable failed: %v%s", r.Err, e.tail())
+		}
+		for _, n := range p.Refs {
+			touched[n] = true
+		}
+		class("shared_via:" + p.Kind)
+	}
+	if c.F.Shared > 0 {
+		class("shared_values")
 	}
 
 	// ---- before
@@ -1227,10 +1327,29 @@ func checkOnce(c caseT, limit time.Duration) (fw.Outcome, *fw.Violation) {
 		return nil
 	}
 
+	// churn: data-neutral statements that allocate many values of every pooled type, so that an
+	// object the failed statement wrongly handed back to the pool is overwritten before the tables are read
+	churn := func() *fw.Violation {
+		stmts := []string{"SELECT 'zz1', 'zz2', 'zz3', 'zz4', 'zz5', 'zz6', 987001, 987002, 987003, 987004, 987005, 98.5, 97.5, 96.5 FROM DUAL;"}
+		for _, t := range c.Tables {
+			stmts = append(stmts, fmt.Sprintf("SELECT v || '~zz', w || '~yy', id + 987000, id * 1.5 FROM %s LIMIT 8;", t.Name))
+		}
+		stmts = append(stmts, "SELECT 'zy1' || 'zy2', 'zy3', 986001 + 1, 986002, 95.5 FROM DUAL;")
+		for _, st := range stmts {
+			if r := e.exec(st); r.Err != nil {
+				return fw.V(sigBase+"_then_select_fails", "%s after the failed statement: %v%s", st, r.Err, e.tail())
+			}
+		}
+		return nil
+	}
+
 	// ---- the failing statement (enumerating cases: once per failure point, on the same session)
 	evals := 0
 	fingerprint := func(pos string) {
 		fp := strings.Join([]string{f.SK, f.FK, pos, tkind, sizeClass(driveN), state}, "/")
+		if f.Shared > 0 {
+			fp += "/shared"
+		}
 		o.More = append(o.More, fp)
 		o.Fingerprint = fp
 	}
@@ -1259,6 +1378,9 @@ func checkOnce(c caseT, limit time.Duration) (fw.Outcome, *fw.Violation) {
 			}
 			evals++
 			what := fmt.Sprintf("after %s was cancelled at poll %d (%v)", f.SQL, n, r.Err)
+			if v := churn(); v != nil {
+				return o, v
+			}
 			if v := compare(what, before); v != nil {
 				return o, v
 			}
@@ -1320,6 +1442,9 @@ func checkOnce(c caseT, limit time.Duration) (fw.Outcome, *fw.Violation) {
 			evals++
 			class("pos:" + a.pos)
 			what := fmt.Sprintf("after the failed %s (%v)", a.sql, r.Err)
+			if v := churn(); v != nil {
+				return o, v
+			}
 			if v := compare(what, before); v != nil {
 				return o, v
 			}
@@ -1472,7 +1597,8 @@ func TestC08FailedStatement(t *testing.T) {
 			"the error must be returned, its class is not constrained: a statement that fails differently from the engineered failure is still checked but does not count as non-trivial (measured as other_error:*)",
 			"a cancelled statement that completes because it needs fewer polls than N ends the case (measured as cancel:completed_*), a case whose statement never fails is discarded (unexpected_success:*)",
 			"ROLLBACK ending: file tables and committed temporary tables must read as initially; tables created in the rolled-back transaction are not examined",
-			"FROM-subqueries over a file are not generated (avoidFromSubqueryPoisonsFileInfo): known open defect, detected under its own signature from_subquery_poisons_fileinfo",
+			"FROM-subqueries over a source table are generated unless avoidFromSubqueryPoisonsFileInfo is set; whatever fails after one is reported under the signature from_subquery_poisons_fileinfo (defect repaired in /repo b1128aa)",
+			"60% of the VALUES lists (and one UPDATE shape) contain values that are the very objects table cells hold: scalar subqueries over the target or the other table, variables assigned from a cell (VAR :=, SELECT INTO), variables fetched from a cursor; after every failed execution data-neutral SELECTs over DUAL and both tables allocate strings, integers and floats (so a value object wrongly recycled by the failed statement is overwritten) before BOTH tables are read; 35% of the cases run with value.VerifPoison (verif build) where a discarded object shows a sentinel at once",
 		},
 	})
 }
